@@ -1,8 +1,178 @@
-/- Driver for C13 (stub). -/
-import ControlModel.Basic
+/-
+  Driver for C13: line = "(hosts classes tree)<TAB>(launch configure)"; see harness/props/c13.
+
+  The launch section of implObs (local bind maps and TaskInfo ports produced by
+  the real makeTaskForMesosResources) is environment-determined, so it is
+  checked as a monitor (REJECT:<why> if it violates the launch postcondition the
+  theorems assume); the configure section is predicted by the model from the
+  input and the launch section, and the answer is "(launch configure_model)".
+-/
+import ControlModel.Model.Channels
+import ControlModel.Spec.C13
 
 namespace Driver.C13
+open Channels
 
-def processLine (_line : String) : String := "UNIMPLEMENTED\t0\t-"
+def parseInbound : SExp → Option Inbound
+  | .list [.atom n, .atom tr, .atom ad, .atom tg, .atom g] => do
+      pure { name := n, transport := (← Transport.parse? tr), addressing := (← Addressing.parse? ad),
+             target := tg, global := g }
+  | _ => none
+
+def parseOutbound : SExp → Option Outbound
+  | .list [.atom n, .atom tr, .atom tg] => do
+      pure { name := n, transport := (← Transport.parse? tr), target := tg }
+  | _ => none
+
+def parseBinds (s : SExp) : Option (List Inbound) := do (← s.list?).mapM? parseInbound
+def parseConnects (s : SExp) : Option (List Outbound) := do (← s.list?).mapM? parseOutbound
+
+partial def parseForest : List SExp → Option Forest
+  | [] => some .nil
+  | .list (.atom "A" :: .atom n :: b :: c :: kids) :: rest => do
+      pure (.agg n (← parseBinds b) (← parseConnects c) (← parseForest kids) (← parseForest rest))
+  | .list [.atom "T", .atom n, .atom cls, h, b, c] :: rest => do
+      pure (.task n cls (← h.nat?) (← parseBinds b) (← parseConnects c) (← parseForest rest))
+  | _ => none
+
+def parseClass : SExp → Option (String × Class)
+  | .list [.atom n, .atom _mode, b, c] => do pure (n, { bind := (← parseBinds b), connect := (← parseConnects c) })
+  | _ => none
+
+def parseRange : SExp → Option (Nat × Nat)
+  | .list [a, b] => do pure ((← a.nat?), (← b.nat?))
+  | _ => none
+
+def parseHost : SExp → Option (String × List (Nat × Nat))
+  | .list (.atom h :: rs) => do pure (h, (← rs.mapM? parseRange))
+  | _ => none
+
+def parseEndpoint : SExp → Option Endpoint
+  | .list [.atom "tcp", .atom h, p, .atom tr] => do pure (.tcp h (← p.nat?) (← Transport.parse? tr))
+  | .list [.atom "ipc", .atom path, .atom tr] => do pure (.ipc path (← Transport.parse? tr))
+  | _ => none
+
+structure Launched where
+  path : String
+  host : String
+  loc : BindMap
+  ports : List (Nat × Nat)
+
+def parseLaunched : SExp → Option Launched
+  | .list [.atom p, .atom h, .list kvs, .list ports] => do
+      let loc ← kvs.mapM? fun
+        | .list [.atom k, e] => do pure (k, (← parseEndpoint e))
+        | _ => none
+      pure { path := p, host := h, loc := loc, ports := (← ports.mapM? parseRange) }
+  | _ => none
+
+def parseEntry : SExp → Option (String × Entry)
+  | .list [.atom n, .atom m, .atom a, .atom tr] => do
+      let m ← match m with | "bind" => some Method.bind | "connect" => some Method.connect | _ => none
+      pure (n, ⟨m, a, (← Transport.parse? tr)⟩)
+  | _ => none
+
+/-- `none` = an outcome the model has no name for ("err other", malformed). -/
+def parseCfg : SExp → Option (Except Err (List Props))
+  | .list [.atom "ok", .list per] => do
+      let res ← per.mapM? fun t => do (← t.list?).mapM? parseEntry
+      pure (.ok res)
+  | .list [.atom "err", .atom "alias_conflict"] => some (.error .aliasConflict)
+  | .list [.atom "err", .atom "unmatched"] => some (.error .unmatched)
+  | _ => none
+
+/-! printing -/
+
+def endpointSx : Endpoint → SExp
+  | .tcp h p tr => .list [.atom "tcp", .atom h, .ofNat p, .atom tr.name]
+  | .ipc path tr => .list [.atom "ipc", .atom path, .atom tr.name]
+
+def rangeSx (r : Nat × Nat) : SExp := .list [.ofNat r.1, .ofNat r.2]
+
+def launchedSx (l : Launched) : SExp :=
+  .list [.atom l.path, .atom l.host, .list (l.loc.map fun kv => .list [.atom kv.1, endpointSx kv.2]),
+         .list (l.ports.map rangeSx)]
+
+def insertSorted (x : String × Entry) : Props → Props
+  | [] => [x]
+  | y :: ys => if x.1 < y.1 then x :: y :: ys else y :: insertSorted x ys
+
+def sortProps (p : Props) : Props := p.foldr insertSorted []
+
+def cfgSx : Except Err (List Props) → SExp
+  | .ok res => .list [.atom "ok", .list (res.map fun p => .list ((sortProps p).map fun (n, e) =>
+      .list [.atom n, .atom e.method.name, .atom e.address, .atom e.transport.name]))]
+  | .error e => .list [.atom "err", .atom e.name]
+
+/-! the launch monitor -/
+
+def inRanges (rs : List (Nat × Nat)) (p : Nat) : Bool := rs.any fun r => r.1 ≤ p && p ≤ r.2
+
+def distinct [BEq α] : List α → Bool
+  | [] => true
+  | x :: xs => !xs.contains x && distinct xs
+
+/-- Endpoints a task allocated, one per channel (non-alias keys). -/
+def ownEndpoints (t : Task) : List Endpoint := (t.loc.filter fun kv => !isAlias kv.1).map (·.2)
+
+def monitor (hosts : List (String × List (Nat × Nat))) (decls : List TaskDecl) (ls : List Launched)
+    (tasks : List Task) : Option String :=
+  if decls.length != ls.length then some "task_count"
+  else if !((decls.zip ls).all fun (d, l) => d.path == l.path && (hosts[d.hostIdx]?).map (·.1) == some l.host)
+    then some "path_or_host"
+  else if !(tasks.all launchOk) then some "launch_postcondition"
+  else if !(tasks.all fun t => t.inbound.all fun c => c.global.isEmpty || (Assoc.get t.loc (aliasKey c.global)).isSome)
+    then some "alias_missing"
+  else if !(tasks.all fun t => distinct (t.loc.map (·.1))) then some "duplicate_key"
+  -- every allocated TCP port is >= 9000, was offered by the task's host and is requested in the TaskInfo
+  else if !((decls.zip ls).all fun (d, l) => l.loc.all fun kv => match kv.2 with
+      | .tcp _ p _ => 9000 ≤ p && inRanges l.ports p && inRanges ((hosts[d.hostIdx]?).map (·.2) |>.getD []) p
+      | .ipc _ _ => true)
+    then some "port_not_offered_or_not_requested"
+  -- no endpoint is handed out twice (per host for ports, globally for fresh IPC paths)
+  else if !(distinct ((tasks.map fun t => (ownEndpoints t).filterMap fun e => match e with
+      | .tcp _ p _ => some (t.host, p) | .ipc _ _ => none).flatten))
+    then some "port_reused"
+  else if !(distinct ((tasks.map fun t => (ownEndpoints t).filterMap fun e => match e with
+      | .ipc p _ => some p | .tcp _ _ _ => none).flatten))
+    then some "ipc_path_reused"
+  else if !decide (WF tasks) then some "not_wellformed"
+  else none
+
+def processLine (line : String) : String :=
+  match SExp.fields line with
+  | [inp, impl] =>
+    match SExp.parse inp, SExp.parse impl with
+    | some (.list [.list hs, .list cs, tree]), some (.list [.list launch, cfg]) =>
+      match hs.mapM? parseHost, cs.mapM? parseClass, parseForest [tree], launch.mapM? parseLaunched with
+      | some hosts, some classes, some forest, some ls =>
+        let decls := flatten "" [] [] forest
+        let tasks : List Task := (decls.zip ls).map fun (d, l) =>
+          let cls := (Assoc.get classes d.cls).getD { bind := [], connect := [] }
+          { path := l.path, host := l.host,
+            inbound := mergeIn d.roleBind cls.bind,
+            outbound := mergeOut d.roleConnect cls.connectLoaded,
+            loc := l.loc }
+        match monitor hosts decls ls tasks with
+        | some why => s!"REJECT:{why}\t0\t-"
+        | none =>
+          let model := configure tasks
+          let modelObs := SExp.list [.list (ls.map launchedSx), cfgSx model]
+          let (spec, hyp) :=
+            match parseCfg cfg with
+            | none => (false, "-")
+            | some r =>
+              if decide (Spec tasks r) then (true, "-")
+              else
+                -- attribute the failure to the excluded hypothesis only if nothing else is wrong
+                let weak : Bool := match r with
+                  | .ok res => decide (res.length = tasks.length ∧ Matched true tasks res ∧ Passthrough tasks res ∧
+                      ¬ Unmatched tasks ∧ clash (claims tasks) = false)
+                  | _ => false
+                if weak && !noInboundTarget tasks then (false, "inbound_target_still_advertised") else (false, "-")
+          s!"{modelObs}\t{if spec then 1 else 0}\t{hyp}"
+      | _, _, _, _ => "BADINPUT\t0\t-"
+    | _, _ => "BADINPUT\t0\t-"
+  | _ => "BADLINE\t0\t-"
 
 end Driver.C13
